@@ -1,12 +1,12 @@
 SPECIFICATION Spec
 CONSTANTS
-  NV = 2
+  NV = 3
   StabV = {}
   NP = 2
   UseQueue = TRUE
   SkipQueue = FALSE
   Faults = FALSE
-  MaxC = 9
+  MaxC = 11
   RepStatuses = {"SUCCESSFUL", "FAILED"}
   Atomic = TRUE
   ReportFine = FALSE
